@@ -380,8 +380,7 @@ class SparseEncoding(Encoding):
         return np.asarray(mat).squeeze(axis=-1)
 
     def mask(self, mask):
-        i, _ = np.where(self._csc[mask.reshape((-1,))])
-        return self._shaped_indices(i)
+        return self.dense[mask if isinstance(mask, np.ndarray) else mask.dense]
 
     def get_value(self, index):
         return self.gather_nd(np.expand_dims(index, axis=0))[0]
